@@ -50,7 +50,7 @@ def render(dirs, lay):
                 out.extend(pad + b"# comment " + bytes([rng.randint(0x41, 0x5a)]) + lay.nl)
             elif r < 0.7:
                 # the text of a line comment is arbitrary: comment signs, keywords, parentheses
-                out.extend(pad + rng.choice([b"# see #12 and #13", b"## double", b"# a ### b", b"#a#b#c", b"# GET /x ( )", b"#", b"# tail #",
+                out.extend(pad + rng.choice([b"# see #12 and #13", b"## double", b"##", b"## ", b"#\t", b"# a ### b", b"#a#b#c", b"# GET /x ( )", b"#", b"# tail #",
                                              b"# \"quoted\" // not an annotation", b"# caf\xc3\xa9"]) + lay.nl)
             else:
                 out.extend(pad + rng.choice([b"###" + lay.nl + b" block " + lay.nl + b"###", b"### one line ###", b"###" + lay.nl + b"# inner # signs ## x" + lay.nl + b"###",
